@@ -1812,4 +1812,331 @@ Section Bridge.
         replace (if compact then compact_eligible c else None) with (@None fdecl) by (unfold compact_eligible; rewrite Hfs; destruct compact; reflexivity).
         exact Helse.
     Qed.
-End Bodies. End Bridge.
+
+    (* ---- serialize *)
+    Lemma ser_body cn a m (compact : pyval) :
+      compact = PNone \/ (exists b, compact = PBool b) ->
+      src_serialize W R (PStruct cn a) m compact PF =
+      match find_class e cn with
+      | Some _ => t <- r_serialize_internal R (PStruct cn a) m PNone (match compact with PNone => PBool false | _ => compact end) PF ;; Ok t
+      | None => Raise Unmodelled
+      end.
+    Proof.
+      intros Hc. destruct (find_class e cn) as [c|] eqn:Hfc.
+      - unfold src_serialize, PF. destruct Hc as [->|[b ->]]; cbn [py_is_none bind].
+        + rewrite cattr_typedpy_compact. cbn [bind]. rewrite (struct_isinst _ _ c) by (exact Hfc || reflexivity).
+          cbn [py_not bind negb]. reflexivity.
+        + rewrite (struct_isinst _ _ c) by (exact Hfc || reflexivity). cbn [py_not bind negb]. reflexivity.
+      - unfold src_serialize, PF. destruct Hc as [->|[b ->]]; cbn [py_is_none bind].
+        + rewrite cattr_typedpy_compact. cbn [bind]. rewrite struct_isinst_unknown by exact Hfc. reflexivity.
+        + rewrite struct_isinst_unknown by exact Hfc. reflexivity.
+    Qed.
+  End Bodies.
+
+  (* ---------------------------------------------------------------- the recursion *)
+
+  Notation sstruct := (ser_struct re_match e ens).
+
+  Lemma rec_ok_struct n : rec_ok (sstruct n).
+  Proof.
+    intros cn a H. destruct n; cbn [ser_struct]; [apply declines_outoffuel|]. rewrite H. apply declines_unmodelled.
+  Qed.
+
+  Lemma val_ok_strip cn a : val_ok (PStruct cn a) = true -> strip a = a.
+  Proof.
+    cbn [val_ok]. intro H. apply andb_true_iff in H as [H _]. unfold strip.
+    induction a as [|[k v] t IH]; [reflexivity|]. cbn [forallb fst snd] in H. apply andb_true_iff in H as [Hk Ht].
+    apply andb_true_iff in Hk as [Hk _]. cbn [filter fst]. rewrite (public_not_internal _ Hk). cbn [negb]. f_equal. apply IH, Ht.
+  Qed.
+
+  Lemma val_ok_pyinst cn a : val_ok (PStruct cn a) = true -> pyinst_ok a = true.
+  Proof.
+    cbn [val_ok]. intro H. apply andb_true_iff in H as [H Hd]. unfold pyinst_ok. rewrite Hd, andb_true_r.
+    apply andb_true_iff. split.
+    - apply forallb_forall. intros p Hp. rewrite forallb_forall in H. rewrite (H _ Hp). apply orb_true_r.
+    - replace (alist_get a (s2p "_none_fields")) with (@None pyval); [reflexivity|].
+      symmetry. clear Hd. induction a as [|[k v] t IH]; [reflexivity|]. cbn [forallb fst snd] in H.
+      apply andb_true_iff in H as [Hk Ht]. apply andb_true_iff in Hk as [Hk _]. cbn [alist_get].
+      destruct (pystr_eqb k (s2p "_none_fields")) eqn:E; [|apply IH, Ht].
+      apply pystr_eqb_spec in E. subst k. discriminate Hk.
+  Qed.
+
+  Hypothesis Henv : env_ok = true.
+  Hypothesis Hdef : defaults_ok = true.
+
+  Theorem knot_ok : forall k n, R_ok (src_knot k W) (sstruct n).
+  Proof.
+    induction k as [|k IH]; intro n.
+    - constructor; intros; cbn [src_knot r_serialize_val r_serialize_field r_serialize_multifield_wrapper
+                                r_serialize_internal r_serialize]; apply refines_oof.
+    - constructor; cbn [src_knot r_serialize_val r_serialize_field r_serialize_multifield_wrapper r_serialize_internal r_serialize].
+      + intros p g x nm m Hp Hm Hx. exact (val_body _ _ (IH n) (rec_ok_struct n) g p nm m x Hp Hm Hx).
+      + intros fd x nm m Hfd Hm Hx. exact (any_body _ _ (IH n) (rec_ok_struct n) fd nm m x Hfd Hm Hx).
+      + intros p g x Hp Hx. exact (field_body _ _ (IH n) g p x Hp Hx).
+      + intros p gs x nm m Hch Hm Hx. exact (mfw_body _ _ (IH n) p gs nm m x Hch Hx).
+      + intros cn a m rm Hm Hrm Hv. destruct n as [|n']; [apply refines_declines, declines_outoffuel|].
+        assert (H : refines (src_serialize_internal W (src_knot k W) (PStruct cn a) m rm (PBool false) PF) (internal_model (sstruct n') false cn a)).
+        { apply ints_body; solve [apply IH | apply rec_ok_struct | assumption | exact (val_ok_pyinst _ _ Hv)]. }
+        unfold internal_model in H. rewrite (val_ok_strip _ _ Hv) in H. cbn [ser_struct].
+        destruct (find_class e cn); exact H.
+      + intros kv m rm Hm Hrm Hv. apply intd_body; solve [apply IH | apply rec_ok_struct | assumption].
+      + intros cn a m Hm Hv.
+        rewrite (ser_body (src_knot k W) Henv cn a m PNone (or_introl eq_refl)).
+        destruct (find_class e cn) as [c|] eqn:Hfc.
+        * apply refines_ret. apply (ok_int _ _ (IH n)); [exact Hm|left; reflexivity|exact Hv].
+        * apply refines_declines, rec_ok_struct, Hfc.
+  Qed.
+
+  (* ---------------------------------------------------------------- the theorems *)
+
+  Notation K k := (src_knot k W).
+
+  (* serialize_val on a Field object: the ordered dispatch on the kind of field and of value *)
+  Theorem src_serialize_val_refines : forall k n f p nm m v,
+      at' p = Some f -> mapper_off m = true -> val_ok v = true ->
+      refines (r_serialize_val (K k) (iref p) nm v m (PBool false) PNone) (sval (sstruct n) f v).
+  Proof. intros k n f p nm m v. exact (ok_val _ _ (knot_ok k n) p f v nm m). Qed.
+
+  (* serialize_val without a field definition (None, or the class Anything) *)
+  Theorem src_serialize_any_refines : forall k n fd nm m v,
+      fd = PNone \/ fd = ref (s2p "Anything") -> mapper_off m = true -> val_ok v = true ->
+      refines (r_serialize_val (K k) fd nm v m (PBool false) PNone) (ser_any (sstruct n) v).
+  Proof. intros k n fd nm m v. exact (ok_any _ _ (knot_ok k n) fd v nm m). Qed.
+
+  (* serialize_multifield_wrapper: the first option that validates and serializes; every Python exception moves on *)
+  Theorem src_multifield_refines : forall k n p gs nm m v,
+      (forall i g, nth_error gs i = Some g -> at' (p ++ [N.of_nat i]) = Some g) ->
+      mapper_off m = true -> val_ok v = true ->
+      refines (r_serialize_multifield_wrapper (K k) (PList (irefs p (length gs))) nm v m (PBool false))
+              (mfw_model (sval (sstruct n)) (validate_weak re_match e) v gs).
+  Proof. intros k n p gs nm m v. exact (ok_mfw _ _ (knot_ok k n) p gs v nm m). Qed.
+
+  (* serialize_internal on an instance as Python has it (internal entries in its __dict__): the attribute loop, the
+     skip-list, None skipping, the compact wrapper form *)
+  Theorem src_serialize_internal_refines : forall k n cn d m rm compact,
+      mapper_off m = true -> rm_ok cn rm -> pyinst_ok d = true ->
+      refines (r_serialize_internal (K (S k)) (PStruct cn d) m rm (PBool compact) (PBool false))
+              (internal_model (sstruct n) compact cn d).
+  Proof.
+    intros k n cn d m rm compact Hm Hrm Hd. cbn [src_knot r_serialize_internal].
+    apply ints_body; solve [apply knot_ok | apply rec_ok_struct | assumption].
+  Qed.
+
+  (* ... and on a model-level instance: ser_struct *)
+  Theorem src_ser_struct_refines : forall k n cn a m rm,
+      mapper_off m = true -> rm_ok cn rm -> val_ok (PStruct cn a) = true ->
+      refines (r_serialize_internal (K k) (PStruct cn a) m rm (PBool false) (PBool false)) (sstruct n (PStruct cn a)).
+  Proof. intros k n cn a m rm. exact (ok_int _ _ (knot_ok k n) cn a m rm). Qed.
+
+  Lemma serialize_model n (compact : bool) cn a :
+    val_ok (PStruct cn a) = true ->
+    declines (serialize re_match e ens n compact (PStruct cn a)) \/
+    exists n', serialize re_match e ens n compact (PStruct cn a) = internal_model (sstruct n') compact cn a.
+  Proof.
+    intro Hv. unfold serialize, internal_model. rewrite (val_ok_strip _ _ Hv).
+    destruct (find_class e cn) as [c|] eqn:Hfc; [|left; apply declines_unmodelled].
+    destruct (if compact then compact_eligible c else None) as [fd|].
+    - destruct n as [|n']; [left; apply declines_outoffuel|right; exists n'; reflexivity].
+    - destruct n as [|n']; [left; apply declines_outoffuel|right; exists n']. cbn [ser_struct]. rewrite Hfc. reflexivity.
+  Qed.
+
+  (* serialize(x, compact=...) *)
+  Theorem src_serialize_refines : forall k n cn a m (compact : bool),
+      mapper_off m = true -> val_ok (PStruct cn a) = true ->
+      refines (r_serialize (K k) (PStruct cn a) m (PBool compact) (PBool false))
+              (serialize re_match e ens n compact (PStruct cn a)).
+  Proof.
+    intros k n cn a m compact Hm Hv.
+    destruct k as [|k]; [apply refines_oof|]. cbn [src_knot r_serialize]. fold PF.
+    rewrite (ser_body (K k) Henv cn a m (PBool compact) (or_intror (ex_intro _ compact eq_refl))).
+    destruct (serialize_model n compact cn a Hv) as [Hdec|[n' Hn']]; [apply refines_declines, Hdec|].
+    rewrite Hn'. destruct (find_class e cn) as [c|] eqn:Hfc.
+    - apply refines_ret. destruct k as [|k]; [apply refines_oof|]. unfold PF.
+      apply src_serialize_internal_refines; [exact Hm|left; reflexivity|exact (val_ok_pyinst _ _ Hv)].
+    - unfold internal_model. rewrite Hfc. apply refines_unm.
+  Qed.
+
+  (* serialize(x): compact taken from TypedPyDefaults.compact_serialization_default (False in this configuration) *)
+  Theorem src_serialize_default_refines : forall k n cn a m,
+      mapper_off m = true -> val_ok (PStruct cn a) = true ->
+      refines (r_serialize (K k) (PStruct cn a) m PNone (PBool false)) (serialize re_match e ens n false (PStruct cn a)).
+  Proof.
+    intros k n cn a m Hm Hv.
+    destruct k as [|k]; [apply refines_oof|]. cbn [src_knot r_serialize]. fold PF.
+    rewrite (ser_body (K k) Henv cn a m PNone (or_introl eq_refl)).
+    pose proof (src_serialize_refines (S k) n cn a m false Hm Hv) as H. cbn [src_knot r_serialize] in H. fold PF in H.
+    rewrite (ser_body (K k) Henv cn a m PF (or_intror (ex_intro _ false eq_refl))) in H. exact H.
+  Qed.
+End Bridge.
+
+(* what a refinement gives when the model answers *)
+Lemma refines_eq {A} (r m : res A) :
+  refines r m -> r <> Raise OutOfFuel -> (forall x, m = Raise x -> model_exn x = false) -> r = m.
+Proof.
+  intros [H|[H|H]] Hr Hm; [contradiction| |exact H].
+  destruct H as (x & Hx & Hmx). rewrite (Hm x Hx) in Hmx. discriminate Hmx.
+Qed.
+
+Lemma refines_ok {A} (r m : res A) (a : A) : refines r m -> m = Ok a -> r = Raise OutOfFuel \/ r = Ok a.
+Proof. exact (refines_ok_inv r m a). Qed.
+
+(* where the model answers a value, the generated serialize answers the same value (or its fuel ran out): the
+   form to combine with C05_pure / C05_roundtrip, whose conclusion is [serialize ... = Ok j] *)
+Corollary src_serialize_ok re_match e ens extra repr :
+  env_ok e = true -> defaults_ok e = true ->
+  forall k n cn a m (compact : bool) j,
+    mapper_off m = true -> val_ok (PStruct cn a) = true ->
+    serialize re_match e ens n compact (PStruct cn a) = Ok j ->
+    r_serialize (src_knot k (ser_world re_match e ens extra repr)) (PStruct cn a) m (PBool compact) (PBool false) = Raise OutOfFuel \/
+    r_serialize (src_knot k (ser_world re_match e ens extra repr)) (PStruct cn a) m (PBool compact) (PBool false) = Ok j.
+Proof.
+  intros He Hd k n cn a m compact j Hm Hv Hj.
+  exact (refines_ok _ _ j (src_serialize_refines re_match e ens extra repr He Hd k n cn a m compact Hm Hv) Hj).
+Qed.
+
+(* a Field object that is not a declared field of a class of the environment: the i-th extra root *)
+Lemma at_extra e extra i f : nth_error extra i = Some f -> at_ e extra [N.of_nat (length e); N.of_nat i] = Some f.
+Proof.
+  intro H. unfold at_, field_at, forest. rewrite !Nat2N.id.
+  rewrite nth_error_app2 by (rewrite map_length; lia). rewrite map_length, Nat.sub_diag. cbn [nth_error].
+  rewrite H. reflexivity.
+Qed.
+
+(* ------------------------------------------------------------------ the inventory of declined points *)
+
+(* Where the translation answers Unmodelled instead of translating (a FunctionCall mapper's call with *args, the
+   camel-case conversion's generator expression, item assignment on a container that may be shared with the caller
+   -- the caller-supplied cache of serialize_val, the result of the compact branch --, setattr on the class).  None
+   of them is on a path the theorems above cover.  A new declined point changes this list. *)
+Example declined_inventory :
+  src_declined =
+  [("_get_mapped_value", "call:keywords-or-star");
+   ("_convert_to_camel_case_if_required", "expression:GeneratorExp");
+   ("serialize_val", "item-assignment:shared-container");
+   ("serialize_internal", "item-assignment:shared-container");
+   ("serialize_internal", "item-assignment:shared-container");
+   ("serialize_internal", "effect:setattr")]%string.
+Proof. reflexivity. Qed.
+
+(* ------------------------------------------------------------------ non-vacuity *)
+
+Definition fdecl' (n : string) (f : field) (d : option pyval) : fdecl :=
+  {| fd_name := s2p n; fd_field := f; fd_immutable := false; fd_default := d |}.
+
+Definition x_ens : enums :=
+  [ {| en_name := s2p "ColorV"; en_by_value := true;
+       en_members := [(s2p "RED", PNum (NInt 1)); (s2p "GREEN", PNum (NInt 2)); (s2p "BLUE", PStr (s2p "b"))] |} ].
+Definition x_colorv : field := FEnumCls (s2p "ColorV") [(s2p "RED", PNum (NInt 1)); (s2p "BLUE", PStr (s2p "b"))].
+
+Definition x_Inner : classdef :=
+  {| c_name := s2p "Inner"; c_ancestors := [];
+     c_fields := [fdecl' "i" (FNumber KInteger SNonNegative no_numc) None; fdecl' "s" (FString no_strc) None];
+     c_required := [s2p "i"]; c_additional := false; c_ignore_none := true; c_immutable := false; c_hook := HookNone |}.
+Definition x_Wrap : classdef :=
+  {| c_name := s2p "Wrap"; c_ancestors := [];
+     c_fields := [fdecl' "w" (FSeqEach SeqList (FNumber KInteger SAny no_numc) no_sizec false) None];
+     c_required := [s2p "w"]; c_additional := false; c_ignore_none := false; c_immutable := false; c_hook := HookNone |}.
+Definition x_Outer : classdef :=
+  {| c_name := s2p "Outer"; c_ancestors := [];
+     c_fields := [fdecl' "n" (FClassRef (s2p "Inner")) None;
+                  fdecl' "xs" (FSeqEach SeqList (FNumber KFloat SAny no_numc) no_sizec false) None;
+                  fdecl' "m" (FMapKV (FString no_strc) (FSeqEach SeqDeque FBoolean no_sizec false) no_sizec) None;
+                  fdecl' "c" x_colorv None;
+                  fdecl' "o" (FAnyOf [FNumber KInteger SAny no_numc; FString no_strc; FNone]) None;
+                  fdecl' "p" (FSeqPos SeqList [FString no_strc; FAnything] no_sizec false None) None;
+                  fdecl' "b" FBoolean (Some (PBool false))];
+     c_required := [s2p "n"; s2p "c"]; c_additional := true; c_ignore_none := false; c_immutable := false;
+     c_hook := HookNone |}.
+Definition x_env : env := [x_Inner; x_Wrap; x_Outer].
+
+(* an instance as Python has it: the internal entries are part of __dict__, at any position *)
+Definition x_inner_py : pyval :=
+  PStruct (s2p "Inner") [(s2p "i", PNum (NInt 0)); (s2p "s", PStr [])].
+Definition x_dict : list (pystr * pyval) :=
+  [ (s2p "_none_fields", PSet false [PStr (s2p "o")]);
+    (s2p "n", x_inner_py);
+    (s2p "xs", PList [PNum (NFlt 0 0)]);
+    (s2p "m", PDict [(PStr [], PDeque []); (PStr (s2p "k"), PDeque [PBool false])]);
+    (s2p "c", PEnum (s2p "ColorV") (s2p "BLUE") (PStr (s2p "b")));
+    (s2p "o", PNone);
+    (s2p "p", PList [PStr (s2p "z"); PDict [(PStr (s2p "q"), PNone); (PStr (s2p "r"), PList [PNum (NInt 7)])]]);
+    (s2p "extra", PTuple [PNum (NInt 1); PStr (s2p "t")]);
+    (s2p "b", PBool false);
+    (s2p "_instantiated", PBool true) ].
+Definition x_expected : pyval :=
+  PDict [ (PStr (s2p "n"), PDict [(PStr (s2p "i"), PNum (NInt 0)); (PStr (s2p "s"), PStr [])]);
+          (PStr (s2p "xs"), PList [PNum (NFlt 0 0)]);
+          (PStr (s2p "m"), PDict [(PStr [], PList []); (PStr (s2p "k"), PList [PBool false])]);
+          (PStr (s2p "c"), PStr (s2p "b"));
+          (PStr (s2p "p"), PList [PStr (s2p "z"); PDict [(PStr (s2p "r"), PList [PNum (NInt 7)])]]);
+          (PStr (s2p "extra"), PList [PNum (NInt 1); PStr (s2p "t")]);
+          (PStr (s2p "b"), PBool false) ].
+
+Definition x_world : world := ser_world (fun _ _ => true) x_env x_ens [] (fun _ => s2p "?").
+
+(* the side conditions hold of a non-trivial environment and instance; the generated serialize_internal, run with
+   enough fuel on the instance WITH its internal entries, computes the document the model computes on the instance
+   without them (the skip-list of the source at work), nested instance, Map, Enum by value, AnyOf, positional items,
+   a dict under Anything and an undeclared attribute included *)
+Example src_nonvacuous :
+  env_ok x_env = true /\ defaults_ok x_env = true /\ pyinst_ok x_dict = true /\
+  r_serialize_internal (src_knot 12 x_world) (PStruct (s2p "Outer") x_dict) PNone PNone (PBool false) (PBool false) = Ok x_expected /\
+  internal_model (fun _ _ => true) x_env x_ens (ser_struct (fun _ _ => true) x_env x_ens 3) false (s2p "Outer") x_dict = Ok x_expected /\
+  strip x_dict <> x_dict.
+Proof.
+  repeat split; try (vm_compute; reflexivity). intro H. vm_compute in H. discriminate H.
+Qed.
+
+(* serialize(x, compact=True) of a single-field wrapper class is the field's value; of the other classes the dict *)
+Example src_nonvacuous_compact :
+  val_ok (PStruct (s2p "Wrap") [(s2p "w", PList [PNum (NInt 3); PNum (NInt 4)])]) = true /\
+  r_serialize (src_knot 12 x_world) (PStruct (s2p "Wrap") [(s2p "w", PList [PNum (NInt 3); PNum (NInt 4)])]) PNone (PBool true) (PBool false)
+    = Ok (PList [PNum (NInt 3); PNum (NInt 4)]) /\
+  serialize (fun _ _ => true) x_env x_ens 2 true (PStruct (s2p "Wrap") [(s2p "w", PList [PNum (NInt 3); PNum (NInt 4)])])
+    = Ok (PList [PNum (NInt 3); PNum (NInt 4)]) /\
+  r_serialize (src_knot 12 x_world) x_inner_py PNone PNone (PBool false)
+    = serialize (fun _ _ => true) x_env x_ens 2 false x_inner_py.
+Proof. repeat split; vm_compute; reflexivity. Qed.
+
+(* the multi-field loop moves on after a TypeError of _validate as well as after a ValueError of the serialization *)
+Example src_multifield_moves_on :
+  r_serialize_val (src_knot 8 (ser_world (fun _ _ => true) [] [] [FAnyOf [FNumber KInteger SAny no_numc; FEnumLit [PStr (s2p "a")]; FString no_strc]] (fun _ => [])))
+                  (iref [0%N; 0%N]) PNone (PStr (s2p "zz")) PNone (PBool false) PNone = Ok (PStr (s2p "zz")).
+Proof. vm_compute. reflexivity. Qed.
+
+(* ------------------------------------------------------------------ summary
+   generated definition (what the source says now)            hand-written model (Ser/Serialize.v)
+   src_serialize_val_refines        serialize_val(field, ..)      ⊑ ser_val rec f v        every f, v, fuel
+   src_serialize_any_refines        serialize_val(None|Anything)  ⊑ ser_any rec v
+   src_multifield_refines           serialize_multifield_wrapper  ⊑ the `go` loop of ser_val (mfw_model)
+   src_serialize_internal_refines   serialize_internal(instance as Python has it, compact) ⊑ ser_attrs on the
+                                    instance without its internal entries / the compact form (internal_model)
+   src_ser_struct_refines           serialize_internal(instance)  ⊑ ser_struct n
+   src_serialize_refines / _default serialize(x, compact=..)      ⊑ serialize n compact x
+   with rec = ser_struct n, the recursion tied by src_knot.  Side conditions: env_ok (user classes are not named
+   like classes of the package; field names are public identifiers), defaults_ok, val_ok (dict keys scalar and
+   distinct; attribute names public and distinct), mapper_off (no mapper), camel_case_convert = False,
+   TypedPyDefaults.compact_serialization_default = False / additional_properties_default = True (ser_world).
+   [r ⊑ m] = r is OutOfFuel (the translation's own fuel), or m is Unmodelled / OutOfFuel (the model declines),
+   or r = m. *)
+Print Assumptions val_body.
+Print Assumptions any_body.
+Print Assumptions mfw_body.
+Print Assumptions field_body.
+Print Assumptions ints_body.
+Print Assumptions intd_body.
+Print Assumptions knot_ok.
+Print Assumptions src_serialize_val_refines.
+Print Assumptions src_serialize_any_refines.
+Print Assumptions src_multifield_refines.
+Print Assumptions src_serialize_internal_refines.
+Print Assumptions src_ser_struct_refines.
+Print Assumptions src_serialize_refines.
+Print Assumptions src_serialize_default_refines.
+Print Assumptions src_serialize_ok.
+Print Assumptions at_extra.
+Print Assumptions refines_eq.
+Print Assumptions declined_inventory.
+Print Assumptions src_nonvacuous.
+Print Assumptions src_nonvacuous_compact.
+Print Assumptions src_multifield_moves_on.
